@@ -64,8 +64,8 @@ func genC08A(t *rapid.T) c08Case {
 	var c c08Case
 	kinds := []string{"convertcoin", "convertcoin", "converterc20", "converterc20", "convertdenom", "convertdenom", "registercoin", "registererc20", "toggle", "alias", "transfer"}
 	for i := 0; i < n; i++ {
-		c.Ops = append(c.Ops, c08Op{Kind: rapid.SampledFrom(kinds).Draw(t, "kind"), U: rapid.IntRange(0, 3).Draw(t, "u"), V: rapid.IntRange(0, 3).Draw(t, "v"), Tok: rapid.IntRange(0, 3).Draw(t, "tok"),
-			Amt: rapid.Int64Range(1, 100000).Draw(t, "amt"), Chain: rapid.IntRange(0, 3).Draw(t, "chain"), Flag: rapid.Bool().Draw(t, "flag"), Idx: rapid.IntRange(0, 3).Draw(t, "idx")})
+		c.Ops = append(c.Ops, c08Op{Kind: rapid.SampledFrom(kinds).Draw(t, "kind"), U: rapid.IntRange(0, 3).Draw(t, "u"), V: rapid.IntRange(0, 3).Draw(t, "v"), Tok: rapid.IntRange(0, 5).Draw(t, "tok"),
+			Amt: rapid.Int64Range(1, 100000).Draw(t, "amt"), Chain: rapid.IntRange(0, 4).Draw(t, "chain"), Flag: rapid.Bool().Draw(t, "flag"), Idx: rapid.IntRange(0, 5).Draw(t, "idx")})
 	}
 	return c
 }
@@ -280,7 +280,8 @@ func runC08A(c c08Case, rec *ev.Recorder) *Failure {
 			ok = f.EthTx(ctx, u, &t.ERC20, nil, data, 500_000).Success()
 			moved = ok
 		case "registercoin":
-			sym := fmt.Sprintf("NEW%d", len(e.extra))
+			// symbols (and so base denominations) of every shape, also ones that merely begin like a chain name
+			sym := fmt.Sprintf("%s%d", []string{"NEW", "ETHW", "TRONX", "BSCPAD", "POLYGONS", "IBCX"}[op.Idx%6], len(e.extra))
 			md := fxtypes.GetCrossChainMetadataManyToOne("New "+sym, sym, 18)
 			if op.Flag {
 				md = fxtypes.GetCrossChainMetadataManyToOne("New "+sym, sym, 18, crosschaintypes.NewBridgeDenom("eth", sim.ExtAddrN("eth", "c08new", len(e.extra))))
@@ -293,7 +294,7 @@ func runC08A(c c08Case, rec *ev.Recorder) *Failure {
 				labels["register-coin"] = true
 			}
 		case "registererc20":
-			addr, err := f.App.Erc20Keeper.DeployUpgradableToken(ctx, u.Hex(), "Third Token", fmt.Sprintf("TRD%d", len(e.extra)), 18)
+			addr, err := f.App.Erc20Keeper.DeployUpgradableToken(ctx, u.Hex(), "Third Token", fmt.Sprintf("%s%d", []string{"TRD", "ETHFI", "TRONIX", "BSCX", "ARBITRUMY", "LAYER2Z"}[op.Idx%6], len(e.extra)), 18)
 			if err != nil {
 				return failf("harness", "deploy: %v", err)
 			}
@@ -307,6 +308,8 @@ func runC08A(c c08Case, rec *ev.Recorder) *Failure {
 				e.extra = append(e.extra, nt)
 				data, _ := contract.GetFIP20().ABI.Pack("mint", u.Hex(), big.NewInt(1_000_000))
 				f.EthTx(ctx, u, &addr, nil, data, 500_000)
+				// half of it in coin form, so that denomination conversions have something to work on
+				f.RunMsg(ctx, &erc20types.MsgConvertERC20{ContractAddress: addr.String(), Amount: sdkmath.NewInt(500_000), Receiver: u.Acc().String(), Sender: u.Hex().String()})
 				labels["register-erc20"] = true
 			}
 		case "toggle":
